@@ -126,27 +126,34 @@ fn c16_cas_i32() {
     assert!(now == if r { u } else { old }, "C16: CAS stores the update only on success");
 }
 
+/// 8-byte RMW accessors on a region whose length (28) is NOT a multiple of 8: the last aligned offset (24) leaves room
+/// for 4 bytes only and must be refused.
 // @verif tier=quick loud=1
 #[kani::proof]
 fn c16_cas_i64_and_fetch_add() {
     let mut m = Mem::<96>::any();
-    let g = guard_probe();
+    let g: usize = kani::any();
+    kani::assume(g < G || (g >= G + 28 && g < 96)); // everything outside the 28-byte region is guard zone
     let before = m.0[g];
-    let b = region(&mut m);
+    let b = m.window(G, 28);
     let off: i32 = kani::any();
     let (e, u): (i64, i64) = (kani::any(), kani::any());
-    let which: bool = kani::any();
+    let which: u8 = kani::any();
     kani::assume(off % 8 == 0); // atomic word must be naturally aligned (caller precondition)
-    if which {
+    let fits = off >= 0 && off as i64 + 8 <= 28;
+    if which == 0 {
         let _ = b.compare_and_set_i64(off, e, u);
-    } else {
+    } else if which == 1 {
         kani::assume(u > -1000 && u < 1000);
         let old = b.get_and_add_i64(off, u);
-        assert!(in_region(off, 8), "C16: fetch-add returned for an offset outside the region");
+        assert!(fits, "C16: fetch-add returned for an offset outside the region");
         assert!(b.get::<i64>(off) == old.wrapping_add(u), "C16: fetch-add adds the delta");
+    } else {
+        b.put_atomic_i64(off, u);
     }
-    assert!(m.0[g] == before, "C16: RMW changed a byte outside the region");
-    assert!(in_region(off, 8), "C16: RMW returned for an offset outside the region");
+    assert!(m.0[g] == before, "C16: 8-byte RMW accessor changed a byte outside the region");
+    assert!(fits, "C16: 8-byte RMW accessor returned for an offset outside the region");
+    kani::cover!(off == 16, "[must] last fitting aligned offset returns");
 }
 
 // @verif tier=quick loud=1
